@@ -1,3 +1,60 @@
-import Orda.Model.Api
+/-
+C03 — Without concurrency each datatype behaves as its plain data structure.
+(counter, map, list; documents: see the `…_doc` section of DESIGN.md §6 C03 — correspondence only so far)
+-/
+import Orda.Proofs.PlainRefine
 namespace Orda.Props.C03
+open Orda
+
+/-- the single-replica invariant holds initially and is kept by EVERY call, valid or not -/
+theorem invariant_reachable (typ : DtType) (cuid : String) (create : Bool) (h : typ ≠ .document)
+    (calls : List Call) :
+    LocalInv (calls.foldl (fun r c => (r.call c).1) (Replica.new typ cuid create)) ∧
+    isDocState (calls.foldl (fun r c => (r.call c).1) (Replica.new typ cuid create)).state = false := by
+  have key : ∀ (cs : List Call) (r : Replica), LocalInv r → isDocState r.state = false →
+      LocalInv (cs.foldl (fun r c => (r.call c).1) r) ∧
+      isDocState (cs.foldl (fun r c => (r.call c).1) r).state = false := by
+    intro cs
+    induction cs with
+    | nil => intro r h1 h2; exact ⟨h1, h2⟩
+    | cons c cs ih =>
+      intro r h1 h2
+      have h1' := localInv_call r c h1 h2
+      have h2' : isDocState (r.call c).1.state = false := by
+        rcases call_cases r c h1 h2 with ⟨o, ho, _⟩ | ⟨s', b', ret, ho, _, _, _, hdoc⟩
+        · rw [ho]; exact h2
+        · rw [ho]; exact hdoc
+      exact ih _ h1' h2'
+  refine key calls _ (localInv_new typ cuid create h) ?_
+  cases typ <;> cases create <;> simp_all [Replica.new, DState.fresh, isDocState]
+
+/-- refinement: every call a typed handle can issue returns what the plain structure returns and
+    leaves the readable state the plain structure's next value -/
+theorem refines_plain (r : Replica) (c : Call) (h : LocalInv r) (hd : isDocState r.state = false)
+    (hf : callFits r.state c = true) :
+    (r.call c).2 = (Plain.step (Plain.abs r.state) c).2 ∧
+    Plain.equiv (Plain.abs (r.call c).1.state) (Plain.step (Plain.abs r.state) c).1 :=
+  call_refines_plain_typed r c h hd hf
+
+/-- a refused call changes nothing at all: readable state, identifiers, queued operations -/
+theorem refused_is_noop (r : Replica) (c : Call) (h : LocalInv r) (hd : isDocState r.state = false) (e : Nat)
+    (he : (r.call c).2 = .err e) : (r.call c).1 = r :=
+  call_err_noop r c h hd e he
+
+/-- no call panics -/
+theorem never_panics (r : Replica) (c : Call) (h : LocalInv r) (hd : isDocState r.state = false) (w : String) :
+    (r.call c).2 ≠ .panic w :=
+  call_no_panic r c h hd w
+
+/-- a successful call queues nothing (a read) or exactly one operation carrying the next identifier -/
+theorem ok_queues_at_most_one (r : Replica) (c : Call) (h : LocalInv r) (hd : isDocState r.state = false)
+    (v : Ret) (hok : (r.call c).2 = .ok v) :
+    (r.call c).1.buffer = r.buffer ∨ ∃ o : Op, (r.call c).1.buffer = r.buffer ++ [o] ∧ o.id = r.opId.next :=
+  call_ok_queues_one r c h hd v hok
+
+-- non-vacuity: a fresh list replica meets the hypotheses and an out-of-range delete is refused
+example : LocalInv (Replica.new .list "c" true) := localInv_new .list "c" true (by decide)
+example : ((Replica.new .list "c" true).call (.ldelete 0)).2 = .err Err.illegalParameters := by
+  simp [Replica.call, Call.prepare, Replica.new, DState.fresh, Rga.validateRange, Rga.empty, Err.illegalParameters]
+
 end Orda.Props.C03
